@@ -40,6 +40,7 @@ MUTANTS = [
     ('p_locks_check_then_act', ['C01'], 'C01', [(P, 'return (cur & kXLock) == kNoLocks\n               && lock->compare_exchange_weak(cur, cur + kSLock, kAcquire, kRelaxed);', 'return (cur & kXLock) == kNoLocks\n               && ((lock->fetch_add(kSLock, kAcquire) & 0) == 0);', 1)], 'LockS: load, test, unconditional fetch_add'),
     ('p_unlocks_relaxed', ['C08'], 'C08.REL', [(P, 'lock_.fetch_sub(kSLock, kRelease);', 'lock_.fetch_sub(kSLock, kRelaxed);', 1)], 'relaxed S release'),
     ('p_upgrade_relaxed', ['C08'], 'C08.ACQ', [(P, 'lock->compare_exchange_weak(cur, kXLock, kAcquire, kRelaxed)', 'lock->compare_exchange_weak(cur, kXLock, kRelaxed, kRelaxed)', 1)], 'relaxed upgrade CAS'),
+    ('p_exchange_selfmove', ['C07'], 'C07.ASSIGN', [(P, 'PessimisticLock::SGuard::operator=(  //\n    SGuard &&rhs) noexcept           //\n    -> SGuard &\n{\n  if (dest_) {\n    dest_->UnlockS();\n  }\n  dest_ = rhs.dest_;\n  rhs.dest_ = nullptr;', 'PessimisticLock::SGuard::operator=(  //\n    SGuard &&rhs) noexcept           //\n    -> SGuard &\n{\n  if (dest_ != nullptr) {\n    dest_->UnlockS();\n  }\n  dest_ = std::exchange(rhs.dest_, nullptr);', 1), (P, '#include <cstdint>', '#include <cstdint>\n#include <utility>', 1)], 'std::exchange after the release: a self-move-assigned guard owns a released lock'),
     ('p_upgrade_empty_guard', ['C07', 'C10'], 'C07.CONV', [(P, '  return XGuard{dest};\n}', '  return XGuard{dest_};\n}', 1)], 'UpgradeToX returns empty guard (the pinned defect D1)'),
     ('p_upgrade_ignores_readers', ['C10', 'C01'], 'C10.UPG', [(P, 'return cur == kSIXLock && lock->compare_exchange_weak(cur, kXLock', 'return (cur & kXMask) == kSIXLock && lock->compare_exchange_weak(cur, (cur ^ kXMask)', 1)], 'upgrade does not wait for shared holders'),
     ('p_downgrade_gap', ['C10'], 'C10', [(P, '  dest->lock_.store(kSIXLock, kRelease);\n  return SIXGuard{dest};', '  dest->lock_.store(kNoLocks, kRelease);\n  return dest->LockSIX();', 1)], 'downgrade = release then reacquire'),
@@ -134,7 +135,8 @@ REFACTORS = [
     ('r_z_reject_spelled', ['C19'], [(Z, '  if (max < min) {', '  if (min > max) {', 0)], 'same test spelled min > max'),
     ('r_z_pin_back', ['C06'], [(Z, '  zipf_cdf_.at(bin_num - 1) = 1.0;', '  zipf_cdf_.back() = 1.0;', 1)], 'pin through back()'),
     ('r_p_rename_member', ['C01', 'C07', 'C10'], [(P, 'dest_', 'target_', 0), (PH, 'dest_', 'target_', 0), (P, 'lock_', 'word_', 0), (PH, 'lock_', 'word_', 0)], 'private members renamed'),
-    ('r_p_exchange_move', ['C07'], [(P, 'PessimisticLock::SGuard::operator=(  //\n    SGuard &&rhs) noexcept           //\n    -> SGuard &\n{\n  if (dest_) {\n    dest_->UnlockS();\n  }\n  dest_ = rhs.dest_;\n  rhs.dest_ = nullptr;', 'PessimisticLock::SGuard::operator=(  //\n    SGuard &&rhs) noexcept           //\n    -> SGuard &\n{\n  if (dest_ != nullptr) {\n    dest_->UnlockS();\n  }\n  dest_ = std::exchange(rhs.dest_, nullptr);', 1), (P, '#include <cstdint>', '#include <cstdint>\n#include <utility>', 1)], 'std::exchange in the move assignment'),
+    # (r_p_exchange_move was removed from the refactorings: `dest_ = std::exchange(rhs.dest_, nullptr)` after the release is not
+    #  equivalent under self-move-assignment - the guard ends up owning a released lock; it is the mutant p_exchange_selfmove now)
     ('r_p_locks_handwritten_spin', ['C01', 'C08', 'C02'], [(P, '  SpinWithBackoff(\n      [](std::atomic_uint64_t *lock) -> bool {\n        auto cur = lock->load(kRelaxed);\n        return (cur & kXLock) == kNoLocks\n               && lock->compare_exchange_weak(cur, cur + kSLock, kAcquire, kRelaxed);\n      },\n      &lock_);\n  return SGuard{this};', '  while (true) {\n    auto cur = lock_.load(kRelaxed);\n    if ((cur & kXLock) == kNoLocks && lock_.compare_exchange_weak(cur, cur + kSLock, kAcquire, kRelaxed)) break;\n    CPP_UTILITY_SPINLOCK_HINT\n  }\n  return SGuard{this};', 1)], 'hand-written spin instead of the helper'),
     ('r_e_sort_reverse_iter', ['C16', 'C20'], [(E, 'std::sort(protected_epochs.begin(), protected_epochs.end(), std::greater<size_t>{});', 'std::sort(protected_epochs.rbegin(), protected_epochs.rend());', 1)], 'descending sort through reverse iterators'),
     ('r_z_auto_dist', ['C19'], [(ZH, 'thread_local std::uniform_real_distribution<double> uniform_dist{0.0, 1.0};  // NOLINT', 'std::uniform_real_distribution<double> uniform_dist{0.0, 1.0};', 1)], 'automatic distribution object'),
